@@ -85,26 +85,32 @@ pub mod implementations {
 
     #[inline(always)]
     pub(crate) fn neg(ctx: &mut Ctx, _args: &[String]) -> Result<()> {
-        let Some(val) = ctx.get_last_op_item_mut() else {
+        let Some(val) = ctx.pop() else {
             bail!("neg requires one item on the local operating stack")
         };
 
+        // an element or a field reaches the operator as a pointer: the operator works on its value
+        let mut val = val.move_out_of_heap_primitive()?;
+
         val.negate()?;
+
+        ctx.push(val);
 
         Ok(())
     }
 
     #[inline(always)]
     pub(crate) fn not(ctx: &mut Ctx, _args: &[String]) -> Result<()> {
-        let Some(val) = ctx.get_last_op_item_mut() else {
+        let Some(val) = ctx.pop() else {
             bail!("not requires one item on the local operating stack")
         };
 
-        let Primitive::Bool(val) = val else {
+        // an element or a field reaches the operator as a pointer: the operator works on its value
+        let Primitive::Bool(val) = val.move_out_of_heap_primitive()? else {
             bail!("not can only negate booleans")
         };
 
-        *val = !*val;
+        ctx.push(Primitive::Bool(!val));
 
         Ok(())
     }
